@@ -35,8 +35,8 @@ impl Property for C05 {
     fn params(&self, tier: Tier) -> Params {
         Params {
             cases: match tier {
-                Tier::Quick => 700,
-                Tier::Thorough => 12_000,
+                Tier::Quick => 5_000,
+                Tier::Thorough => 60_000,
             },
             max_bytes: 256,
             timeout: Duration::from_secs(60),
